@@ -470,6 +470,14 @@ func jsonMain(args mon.Args) {
 			}
 			c := sweepCase(proto, t, recs, g)
 			one(c, "sweep:"+e.Type, false)
+			if e.Type == "boolean" && l == 1 {
+				// "booleans" are named in the statement's quantifier: the JSON boolean is anchored to the wire
+				// octet (RFC 7011 6.1.5: 1 = true, anything else is not true), not only to the decoder's word
+				run.Add("boolean_values_anchored_to_the_wire", int64(len(recs)))
+				if w := boolAnchor(c.Output, recs); w != "" {
+					run.Violation("json:"+proto+":boolean-differs-from-the-wire", fmt.Sprintf("element %d/%d (%s): %s", e.PEN, e.ID, e.Name, w), c)
+				}
+			}
 		}
 	}
 	// every nasty string on its own, as fixed-length and variable-length string
@@ -542,6 +550,31 @@ func pickTypes(g *mon.RNG) []string {
 		out = append(out, pool[g.Intn(len(pool))])
 	}
 	return out
+}
+
+// boolAnchor compares the V of every one-field record of a published document with the octet sent.
+func boolAnchor(out string, recs []wire.Record) string {
+	var doc struct {
+		DataSets [][]struct {
+			V interface{} `json:"V"`
+		}
+	}
+	if err := json.Unmarshal([]byte(out), &doc); err != nil {
+		return ""
+	}
+	if len(doc.DataSets) != len(recs) {
+		return ""
+	}
+	for i, r := range doc.DataSets {
+		if len(r) != 1 || len(recs[i]) != 1 || len(recs[i][0].Raw) != 1 {
+			return ""
+		}
+		want := recs[i][0].Raw[0] == 1
+		if b, ok := r[0].V.(bool); !ok || b != want {
+			return fmt.Sprintf("record %d was sent with the octet %#02x and is published as %v", i, recs[i][0].Raw[0], r[0].V)
+		}
+	}
+	return ""
 }
 
 func sweepCase(proto string, t *wire.Template, recs []wire.Record, g *mon.RNG) *jsonCase {
